@@ -14,7 +14,7 @@ func init() {
 	register(&PropDef{
 		ID:    "C40",
 		Pkgs:  []string{odp},
-		Claim: "Decides the structural part: the count of ejected endpoints changes only by +1 where an endpoint is ejected (its ejection timestamp is set), by -1 where it is un-ejected (timestamp cleared), and by -1 where an endpoint that is currently ejected (timestamp non-zero) is removed from the endpoint table, which is the only other place an endpoint leaves the table; both detection algorithms consider only endpoints with at least the configured request volume, return early below the minimum host count, and eject only on the arm where the ejected share is below max_ejection_percent and the enforcement draw is below the enforcement percentage; the un-ejection time is timestamp + min(base x multiplier, max(base, max_ejection_time)); a no-op config un-ejects every ejected endpoint and zeroes every multiplier; an ejected subchannel reports TRANSIENT_FAILURE to its health listener, suppresses health updates while ejected and replays the latest health state on un-ejection.",
+		Claim: "Decides the structural part: the count of ejected endpoints changes only by +1 where an endpoint is ejected (its ejection timestamp is set), by -1 where it is un-ejected (timestamp cleared), and by -1 where an endpoint that is currently ejected (timestamp non-zero) is removed from the endpoint table, which is the only other place an endpoint leaves the table; both detection algorithms consider only endpoints with at least the configured request volume, return early below the minimum host count, and eject only on the arm where the ejected share is below max_ejection_percent and the enforcement draw is below the enforcement percentage; the un-ejection time is timestamp + min(base x multiplier, max(base, max_ejection_time)); a no-op config un-ejects every ejected endpoint and zeroes every multiplier; an ejected subchannel reports TRANSIENT_FAILURE to its health listener, suppresses health updates while ejected and replays the latest health state on un-ejection. The ejection state (endpoint and address maps, ejected count, interval timer; cfg with a single writer) is accessed only under the balancer mutex, which is balanced; the interval and no-op passes visit every endpoint; an ejection always reaches a registered health listener.",
 		NotDecided:  []string{"the success-rate / failure-percentage arithmetic (floating point)", "complete ejection histories against a reference model over all call-result sequences"},
 		Assumptions: []string{"all counter updates happen under the balancer mutex (helpers documented 'caller must hold b.mu')"},
 		Technique:   "static analysis: who-may-write with stored-value shapes and dominating guards on go/ssa branch facts (including range-over-func bodies), refusing-arm unreachability, value-origin of builtin min/max structure",
